@@ -96,6 +96,8 @@ type c06Param struct {
 	Threads [][]bt.Op `json:"threads"`
 	Pre     []bt.Op   `json:"pre"`
 	Iter    bool      `json:"iterpoints,omitempty"`
+	// Close: the observations that close the history (default: one full read of the table)
+	Close []bt.Op `json:"close,omitempty"`
 }
 
 func c06OpName(o bt.Op) string {
@@ -116,7 +118,17 @@ func (p c06Param) name() string {
 	for _, t := range p.Threads {
 		var os []string
 		for _, o := range t {
-			os = append(os, c06OpName(o)+"("+string(o.Key)+")")
+			k := string(o.Key)
+			if k == "" && o.Table != "" {
+				k = o.Table[strings.LastIndex(o.Table, "/")+1:]
+			}
+			if k == "" {
+				k = o.TableID
+			}
+			if o.Kind == "ModifyFamilies" {
+				k = c14Tag(&o)
+			}
+			os = append(os, c06OpName(o)+"("+k+")")
 		}
 		ts = append(ts, strings.Join(os, ","))
 	}
@@ -148,6 +160,9 @@ func c06Scenario(c *fw.Ctx, p c06Param) *schedScenario {
 		inst.Verdict = func(x *sched.Exec) (string, string, string) {
 			defer d.Close()
 			// a final complete read, after every thread has returned, closes the history
+			for _, o := range p.Close {
+				h.do(d, len(p.Threads), o)
+			}
 			fin := h.do(d, len(p.Threads), bt.Op{Kind: "ReadRows", Table: tblT})
 			for _, o := range h.ops {
 				if r := o.Output.(bt.Resp); r.Panic != "" {
